@@ -31,8 +31,24 @@ ASSUMPTIONS = [
 ]
 BUDGET = {"quick": (6, 800), "thorough": (16, 6000)}
 
-KEYS = ["cls:Evt", "cls:Jet", "cls:Trk", "m:Evt.jets", "m:Evt.met", "m:Jet.pt", "m:Jet.trks", "m:Trk.pt", "fn", "prop:Jet.attr"]
-METHODS = {"Evt": [("met", "float"), ("jets", "Iterable[Jet]")], "Jet": [("pt", "float"), ("trks", "Iterable[Trk]")], "Trk": [("pt", "float")]}
+KEYS = ["cls:Evt", "cls:Jet", "cls:Trk", "m:Evt.jets", "m:Evt.met", "m:Jet.pt", "m:Jet.trks", "m:Trk.pt", "fn", "prop:Jet.attr", "cls:Base", "m:Base.eta"]
+METHODS = {"Base": [("eta", "float")], "Evt": [("met", "float"), ("jets", "Iterable[Jet]")], "Jet": [("pt", "float"), ("trks", "Iterable[Trk]")], "Trk": [("pt", "float")]}
+BASES = {"Jet": "Base", "Trk": "Base"}  # Jet and Trk inherit eta() from Base
+
+
+def site_keys(cbs, cls, meth):
+    """callbacks a call site obj.meth() with obj of class cls must trigger, in order: the class-level callback the class is
+    registered with (its own, else the one it inherits, as the decorator sets a class attribute), then the method's own"""
+    own = meth in [m for m, _ in METHODS[cls]]
+    ckey = f"cls:{cls}" if cbs.get(f"cls:{cls}") else (f"cls:{BASES[cls]}" if cls in BASES else f"cls:{cls}")
+    mkey = f"m:{cls}.{meth}" if own else f"m:{BASES[cls]}.{meth}"
+    return [k for k in (ckey, mkey) if cbs.get(k)]
+
+
+def _scalar_of(draw, cls):
+    if cls in BASES and draw(st.integers(0, 9)) < 4:
+        return "eta"
+    return SCALAR[cls]
 CHILD = {"Evt": ("jets", "Jet"), "Jet": ("trks", "Trk")}
 SCALAR = {"Evt": "met", "Jet": "pt", "Trk": "pt"}
 
@@ -45,7 +61,7 @@ def _val(draw, var, cls, depth, names, ctr):
 
     c = draw(st.integers(0, 9)) if depth > 0 else draw(st.integers(0, 1))
     if c <= 1:
-        return ["site", ["var", var], cls, SCALAR[cls], mark()]
+        return ["site", ["var", var], cls, _scalar_of(draw, cls), mark()]
     if c <= 5 and cls in CHILD:
         coll, child = CHILD[cls]
         src = ["site", ["var", var], cls, coll, mark()]
@@ -61,7 +77,7 @@ def _val(draw, var, cls, depth, names, ctr):
         if k == 3 and child in CHILD:
             c2, g = CHILD[child]
             return ["count", ["op", "SelectMany", src, v2, ["site", ["var", v2], child, c2, mark()]]]
-        return ["site", ["first", src], child, SCALAR[child], mark()]
+        return ["site", ["first", src], child, _scalar_of(draw, child), mark()]
     if c == 6:
         return ["fn", mark()]
     if c == 7 and cls == "Jet":
@@ -69,7 +85,7 @@ def _val(draw, var, cls, depth, names, ctr):
         return ["psite", ["var", var], params, mark()]
     if c == 8:
         return ["bin", draw(st.sampled_from(["+", "*"])), draw(_val(var, cls, depth - 1, names, ctr)), draw(_val(var, cls, depth - 1, names, ctr))]
-    return ["site", ["var", var], cls, SCALAR[cls], mark()]
+    return ["site", ["var", var], cls, _scalar_of(draw, cls), mark()]
 
 
 @st.composite
@@ -136,7 +152,7 @@ def render(ir, cbs, mode):
         if mode == "written":
             return f"{R(recv)}.{meth}({marker})"
         name, args = meth, [str(marker)]
-        for key in (f"cls:{cls}", f"m:{cls}.{meth}"):
+        for key in site_keys(cbs, cls, meth):
             rw = cbs.get(key)
             name = _rw_method(name, rw)
             if rw == "append":
@@ -238,11 +254,11 @@ def build(cbs, log):
 
     ns = {"Iterable": Iterable, "func_adl_callback": func_adl_callback, "func_adl_parameterized_call": func_adl_parameterized_call}
     src = []
-    for cls in ("Trk", "Jet", "Evt"):
+    for cls in ("Base", "Trk", "Jet", "Evt"):
         if cbs.get(f"cls:{cls}"):
             ns[f"_cb_cls_{cls}"] = mk(f"cls:{cls}", cbs[f"cls:{cls}"])
             src.append(f"@func_adl_callback(_cb_cls_{cls})")
-        src.append(f"class {cls}:")
+        src.append(f"class {cls}({BASES[cls]}):" if cls in BASES else f"class {cls}:")
         for meth, ret in METHODS[cls]:
             key = f"m:{cls}.{meth}"
             if cbs.get(key):
@@ -300,7 +316,7 @@ def check(case) -> Result:
         for kind, cls, meth, marker, params, depth, is_root in sites:
             ids = []
             if kind == "site":
-                ids = [k for k in (f"cls:{cls}", f"m:{cls}.{meth}") if cbs.get(k)]
+                ids = site_keys(cbs, cls, meth)
             elif kind == "fn":
                 ids = ["fn"] if cbs.get("fn") else []
             elif kind == "psite":
